@@ -60,6 +60,11 @@ CHECKS = {
          "For every block that enters the longest chain beyond height gp+1 (generated histories with several window wraps, dust, fees, treasury payout multiplier and cap, forks across the edge) the set U of still-unspent outputs of the expiring block is taken from the independent replay; rebroadcast transactions must map one-to-one into U, keep the owner, carry value+payout-fee, the payouts must equal the treasury debit, and rebroadcast fees plus the value of non-rebroadcast members of U must equal total_fees_atr; real signed spends of expired outputs are then offered to the pool and must be refused.",
          "NFT-style bound triples are not generated. 'No longer spendable' is judged operationally (a signed spend is refused), not by absence from the utxoset map.",
          "DESIGN.md §3 C13"),
+ "C14": ("exploration",
+         "stateful model-based testing: generated operation sequences (vec of ops + interpreter, shrinking as one value) over pool, producer, peer blocks and reorganisations, invariants after every step and a terminal spendability probe, judged by the independent reference ledger",
+         "Sequences of up to 30 pool operations (fresh/conflicting/duplicate/invalid submissions, local bundling, peer blocks confirming pooled transactions, peer blocks spending one input of a multi-input pooled transaction, rejected blocks, reorganising side chains) are interpreted against one node; after each step the pool must be conflict-free, every pooled transaction valid on the current ledger, the cached routing work exact, bundling all-or-nothing; at the end every spendable output not referenced by the pool must be spendable through the pool.",
+         "Staking is off (the wallet's stake selection is not in scope here). Pool admission of catalogue edits is C01's subject; here only consistency is asserted.",
+         "DESIGN.md §3 C14"),
 }
 NOT_YET = {}
 
